@@ -75,8 +75,30 @@ type serverCase struct {
 	MD      string `json:"md,omitempty"`      // metadata the handler sets: "" | header | trailer | both
 	Msg     string `json:"msg,omitempty"`     // status message: "" = "msg" | empty | colon
 	Details int    `json:"details,omitempty"` // number of status details (0..2)
+	// Collide: a handler-set metadata entry whose key collides with a header of the
+	// protocol itself (collide.go); Chain: the handler is a gateway that first relays the
+	// response metadata of a backend call (collide.go); Wire: over net/http on loopback
+	// instead of recorder + canned round tripper.
+	Collide *collide   `json:"collide,omitempty"`
+	Chain   *chainSpec `json:"chain,omitempty"`
+	Wire    bool       `json:"wire,omitempty"`
 	// Opts is the call-option list of the failing client call (replay only; nil = all lists)
 	Opts *optSet `json:"opts,omitempty"`
+}
+
+// wantMD: which of h-key / t-key the caller's grpc.Header / grpc.Trailer variables must hold.
+func (c serverCase) wantMD() string {
+	if c.Chain != nil {
+		return c.Chain.wantMD()
+	}
+	return c.MD
+}
+
+func (c serverCase) outcome() string {
+	if c.Code == 0 && !c.OKErr {
+		return "success"
+	}
+	return "failure"
 }
 
 type clientCase struct {
@@ -91,14 +113,17 @@ type clientCase struct {
 }
 
 type streamCase struct {
-	Kind    string  `json:"kind"` // stream
-	Code    uint32  `json:"code"`
-	OKErr   bool    `json:"ok_err,omitempty"`
-	MD      string  `json:"md,omitempty"`
-	Msg     string  `json:"msg,omitempty"`
-	Details int     `json:"details,omitempty"`
-	NMsgs   int     `json:"nmsgs"` // messages the handler sends before returning
-	Opts    *optSet `json:"opts,omitempty"`
+	Kind    string `json:"kind"` // stream
+	Code    uint32 `json:"code"`
+	OKErr   bool   `json:"ok_err,omitempty"`
+	MD      string `json:"md,omitempty"`
+	Msg     string `json:"msg,omitempty"`
+	Details int    `json:"details,omitempty"`
+	NMsgs   int    `json:"nmsgs"` // messages the handler sends before returning
+	// Collide: see serverCase (place hdr = SetHeader, send = SendHeader, tlr = SetTrailer)
+	Collide *collide `json:"collide,omitempty"`
+	Wire    bool     `json:"wire,omitempty"`
+	Opts    *optSet  `json:"opts,omitempty"`
 }
 
 func msgText(id string) string {
@@ -214,19 +239,28 @@ func rendererOpts(name string) []httpgrpc.ServerOption {
 	return nil
 }
 
-func runServer(c serverCase) reply {
+// buildServer: the real server with the handler of the case; the second result releases
+// what the case holds (the backend's listener of a chain over loopback).
+func buildServer(c serverCase) (*httpgrpc.Server, func()) {
+	var cleanup []func()
+	relay := func(context.Context) {}
+	if c.Chain != nil {
+		relay = c.Chain.relayFn(c.Wire, &cleanup)
+	}
 	srv := httpgrpc.NewServer(rendererOpts(c.Renderer)...)
 	svc := &common.Svc{Name: "t.S", Unary: map[string]common.UnaryFn{"M": func(ctx context.Context, dec func(interface{}) error) (interface{}, error) {
 		var in wrapperspb.StringValue
 		if err := dec(&in); err != nil {
 			return nil, err
 		}
+		relay(ctx)
 		if mdHasHeader(c.MD) {
 			grpc.SetHeader(ctx, metadata.Pairs("h-key", "h-val"))
 		}
 		if mdHasTrailer(c.MD) {
 			grpc.SetTrailer(ctx, metadata.Pairs("t-key", "t-val"))
 		}
+		c.Collide.applyUnary(ctx, c.Code)
 		if c.Timeout == "1n" {
 			<-ctx.Done() // the server-side deadline derived from GRPC-Timeout
 		}
@@ -236,6 +270,16 @@ func runServer(c serverCase) reply {
 		return wrapperspb.String("resp"), nil
 	}}}
 	srv.RegisterService(svc.Desc(), common.Impl{})
+	return srv, func() {
+		for _, f := range cleanup {
+			f()
+		}
+	}
+}
+
+func runServer(c serverCase) reply {
+	srv, done := buildServer(c)
+	defer done()
 	reqBody, _ := proto.Marshal(wrapperspb.String("req"))
 	ctx, cancel := context.WithCancel(context.Background())
 	defer cancel()
@@ -346,7 +390,7 @@ func checkServerClient(c serverCase, rp reply, o optSet) (string, string) {
 		if out != "resp" {
 			return "ok-wrong-response", fmt.Sprintf("%s response=%q", obs, out)
 		}
-		if cl, d := h.checkFilled(c.MD); cl != "" {
+		if cl, d := h.checkFilled(c.wantMD()); cl != "" {
 			return cl, obs + " " + d
 		}
 		return "", obs
@@ -354,7 +398,7 @@ func checkServerClient(c serverCase, rp reply, o optSet) (string, string) {
 	if cl, d := statusMismatch(err, wantCode, wantMsg, wantDetails); cl != "" {
 		return cl, obs + " " + d
 	}
-	if cl, d := h.checkFilled(c.MD); cl != "" {
+	if cl, d := h.checkFilled(c.wantMD()); cl != "" {
 		return cl, obs + " " + d
 	}
 	// the status travels in the headers: a body cut short afterwards must not replace the handler's status
@@ -365,7 +409,7 @@ func checkServerClient(c serverCase, rp reply, o optSet) (string, string) {
 	if cl, d := statusMismatch(err, wantCode, wantMsg, wantDetails); cl != "" {
 		return cl + "-with-broken-body", obs + " " + d
 	}
-	if cl, d := h.checkFilled(c.MD); cl != "" {
+	if cl, d := h.checkFilled(c.wantMD()); cl != "" {
 		return cl + "-with-broken-body", obs + " " + d
 	}
 	return "", obs
@@ -514,6 +558,23 @@ func (k *collapser) report(group, extra, what string, replay interface{}) {
 	k.rep.Violation(group+extra, what, replay)
 }
 
+func (c serverCase) extras(o optSet) string {
+	s := ""
+	if c.Chain != nil || c.Collide != nil {
+		s = fmt.Sprintf("|code=%d|cancelled=%v|renderer=%s", c.Code, c.Cancelled, c.Renderer)
+		if c.OKErr {
+			s = fmt.Sprintf("|okerr|cancelled=%v|renderer=%s", c.Cancelled, c.Renderer)
+		}
+	}
+	if c.Chain != nil {
+		s += fmt.Sprintf("|backend=%d|backend-details=%d|relay=%s", c.Chain.BCode, c.Chain.BDetails, c.Chain.Relay)
+	}
+	if c.Wire {
+		s += "|wire"
+	}
+	return s + extras(c.MD, c.Msg, c.Details, o)
+}
+
 func extras(md, msg string, details int, o optSet) string {
 	s := ""
 	if md != "" {
@@ -531,8 +592,15 @@ func extras(md, msg string, details int, o optSet) string {
 	return s
 }
 
+// Cases of the colliding-metadata and gateway dimensions form their own groups: one per
+// (colliding entry | chain, outcome of the handler, clause); the code, cancellation,
+// renderer (and backend outcome, "wire") of the simplest failing member go into the tail.
 func (c serverCase) group(clause string) string {
 	switch {
+	case c.Chain != nil:
+		return fmt.Sprintf("C14|chain|gateway=%s|%s", c.outcome(), clause)
+	case c.Collide != nil:
+		return fmt.Sprintf("C14|server-collide|%s|%s|%s", c.Collide, c.outcome(), clause)
 	case c.OKErr:
 		return fmt.Sprintf("C14|server|okerr|cancelled=%v|%s", c.Cancelled, clause)
 	case c.Timeout != "":
@@ -609,6 +677,17 @@ func main() {
 		case "server":
 			var c serverCase
 			common.LoadReplay(p, &c)
+			if c.Wire {
+				if probe.Opts == nil {
+					sets = []optSet{{}, {H: 1, T: 1}}
+				}
+				for _, o := range sets {
+					if clause, obs = checkServerWire(c, o); clause != "" {
+						break
+					}
+				}
+				break
+			}
 			rp := runServer(c)
 			clause, obs = checkServerReply(c, rp)
 			for _, o := range sets {
@@ -648,6 +727,10 @@ func main() {
 	}
 
 	evals := 0
+	collideCases, chainCases, wireCases, streamCollideCases := 0, 0, 0, 0
+	extraSamples := 0
+	// over loopback: no options, and one grpc.Header plus one grpc.Trailer
+	wireSets := []optSet{{}, {H: 1, T: 1}}
 	distinct := keySet{}
 	var samples []interface{}
 	col := &collapser{rep: rep, seen: map[string]bool{}}
@@ -672,6 +755,7 @@ func main() {
 		codeList = append(codeList, c)
 	}
 	codeList = append(codeList, 99, 1000, 1<<31-1, 1<<31, 3000000000, 1<<32-1)
+	quickCodes := append([]uint32(nil), codeList...)
 	renderers := []string{"default", "nothing", "teapot"}
 	if thorough {
 		for c := uint32(18); c <= 64; c++ {
@@ -686,12 +770,29 @@ func main() {
 	// one server case: the reply once, then the client once per option list
 	doServer := func(c serverCase, key string) {
 		current.Store(fmt.Sprintf("%+v", c))
+		if c.Wire {
+			// over loopback every option list is a call of its own
+			for _, o := range wireSets {
+				evals++
+				clause, obs := checkServerWire(c, o)
+				distinct.add(key + "|wire|" + o.String())
+				if clause != "" {
+					o := o
+					cc := c
+					cc.Opts = &o
+					col.report(c.group(clause), c.extras(o), clause+": "+obs, cc)
+				}
+			}
+			return
+		}
 		rp := runServer(c)
 		evals++
-		nontrivial := c.Code != 0 || c.OKErr
+		// non-trivial: the handler failed, or the reply carries a status / details header
+		// although it succeeded (a colliding entry that reached the wire)
+		nontrivial := c.Code != 0 || c.OKErr || len(rp.hdr.Values("X-GRPC-Status")) > 0 || len(rp.hdr.Values("X-GRPC-Details")) > 0
 		clause, obs := checkServerReply(c, rp)
 		if clause != "" {
-			col.report(c.group(clause), extras(c.MD, c.Msg, c.Details, optSet{}), clause+": "+obs, c)
+			col.report(c.group(clause), c.extras(optSet{}), clause+": "+obs, c)
 			return
 		}
 		for _, o := range optSets {
@@ -703,11 +804,16 @@ func main() {
 			if len(samples) < 6 && c.Code%5 == 1 && c.MD == "both" && c.Details == 1 && o.H == 1 && o.T == 1 && !o.Peer && !o.Creds && !c.Cancelled {
 				samples = append(samples, map[string]interface{}{"case": c, "opts": o.String(), "observed": obs})
 			}
+			if (c.Collide != nil || c.Chain != nil) && nontrivial && extraSamples < 6 && c.Code%9 == 5 && c.Renderer == "default" && !c.Cancelled && o.H == 1 && o.T == 1 && !o.Peer && !o.Creds &&
+				(c.Chain != nil && c.Chain.BCode%7 == 2 && c.Chain.Relay == "both" || c.Collide != nil && c.Collide.Place == "hdr" && c.Details == 0 && c.Msg == "" && (c.Collide.Val == "other" || c.Collide.Val == "valid")) {
+				extraSamples++
+				samples = append(samples, map[string]interface{}{"case": c, "opts": o.String(), "observed": obs})
+			}
 			if clause != "" {
 				o := o
 				cc := c
 				cc.Opts = &o
-				col.report(c.group(clause), extras(c.MD, c.Msg, c.Details, o), clause+": "+obs, cc)
+				col.report(c.group(clause), c.extras(o), clause+": "+obs, cc)
 			}
 		}
 	}
@@ -870,18 +976,185 @@ func main() {
 	}
 
 	lap("streaming end to end")
+
+	// ---- handler-set metadata that collides with the protocol's own response headers ----
+	unaryCollides := allCollides([]string{"hdr", "tlr", "hdrp"})
+	streamCollides := allCollides([]string{"hdr", "send", "tlr"})
+	collideMDs := []string{""}
+	if thorough {
+		collideMDs = []string{"", "both"}
+	}
+	// (e) crossed with code x cancellation x renderer (x handler metadata in the thorough
+	// tier); status details 1..2 swept where the entry is a status or details header,
+	// the message shapes where it is a status header
+	for pass := 0; pass < 2; pass++ {
+		for _, k := range unaryCollides {
+			for _, code := range codeList {
+				for _, cancelled := range []bool{false, true} {
+					for _, r := range renderers {
+						for _, md := range collideMDs {
+							for _, msg := range msgs {
+								for det := 0; det <= 2; det++ {
+									base := msg == "msg" && det == 0
+									if base != (pass == 0) {
+										continue
+									}
+									if !base {
+										statusKey := k.Key == "x-grpc-status"
+										if code == 0 || (det > 0 && msg != "msg") || (det > 0 && !statusKey && k.Key != "x-grpc-details") || (msg != "msg" && !statusKey) {
+											continue
+										}
+									}
+									k := k
+									c := serverCase{Kind: "server", Code: code, Cancelled: cancelled, Renderer: r, MD: md, Msg: msg, Details: det, Collide: &k}
+									if msg == "msg" {
+										c.Msg = ""
+									}
+									collideCases++
+									doServer(c, fmt.Sprintf("srv|%s|%d|%v|%s|%s|%s|%d", k, code, cancelled, r, md, msg, det))
+								}
+							}
+						}
+					}
+				}
+			}
+		}
+	}
+	for _, k := range unaryCollides {
+		for _, r := range renderers {
+			k := k
+			c := serverCase{Kind: "server", Renderer: r, OKErr: true, Collide: &k}
+			collideCases++
+			doServer(c, fmt.Sprintf("srv|%s|okerr|%s", k, r))
+		}
+	}
+	lap("unary colliding metadata")
+
+	// (f) the two-hop chain: backend outcome x gateway outcome x renderer x what is relayed
+	gatewayCodes := []uint32{0, 1, 5, 14, 17, 3000000000}
+	cancelledList := []bool{false}
+	if thorough {
+		gatewayCodes = quickCodes // the backend ranges over the full thorough list
+		cancelledList = []bool{false, true}
+	}
+	for _, bcode := range codeList {
+		for bdet := 0; bdet <= 1; bdet++ {
+			if bcode == 0 && bdet > 0 {
+				continue
+			}
+			for _, gcode := range gatewayCodes {
+				for gdet := 0; gdet <= 1; gdet++ {
+					if gcode == 0 && gdet > 0 {
+						continue
+					}
+					for _, cancelled := range cancelledList {
+						for _, r := range renderers {
+							for _, relay := range []string{"hdr", "tlr", "both"} {
+								c := serverCase{Kind: "server", Code: gcode, Cancelled: cancelled, Renderer: r, Details: gdet, Chain: &chainSpec{BCode: bcode, BDetails: bdet, Relay: relay}}
+								chainCases++
+								doServer(c, fmt.Sprintf("chain|%d|%d|%d|%d|%v|%s|%s", bcode, bdet, gcode, gdet, cancelled, r, relay))
+							}
+						}
+					}
+				}
+			}
+		}
+	}
+	lap("two-hop chain")
+
+	// (g) over net/http on loopback: every colliding entry, and the chain, around three codes
+	for _, code := range []uint32{0, 5, 14} {
+		for _, r := range renderers {
+			for _, k := range unaryCollides {
+				k := k
+				c := serverCase{Kind: "server", Code: code, Renderer: r, Collide: &k, Wire: true}
+				wireCases++
+				doServer(c, fmt.Sprintf("srv|%s|%d|%s", k, code, r))
+			}
+			for _, bcode := range []uint32{0, 5, 14} {
+				for _, relay := range []string{"hdr", "tlr", "both"} {
+					c := serverCase{Kind: "server", Code: code, Renderer: r, Chain: &chainSpec{BCode: bcode, BDetails: 1, Relay: relay}, Wire: true}
+					if bcode == 0 {
+						c.Chain.BDetails = 0
+					}
+					wireCases++
+					doServer(c, fmt.Sprintf("chain|%d|%d|%s|%s", bcode, code, r, relay))
+				}
+			}
+		}
+	}
+	lap("loopback")
+
+	// (h) streams: SetHeader / SendHeader / SetTrailer with a colliding key
+	doStream := func(c streamCase, sets []optSet) {
+		current.Store(fmt.Sprintf("%+v", c))
+		for _, o := range sets {
+			evals++
+			clause, obs := checkStream(c, o)
+			distinct.add(fmt.Sprintf("str|%s|%v|%d|%d|%d|%s", c.Collide, c.Wire, c.Code, c.Details, c.NMsgs, o))
+			if extraSamples < 8 && c.Code == 5 && c.NMsgs == 1 && !c.Wire && c.Collide.Val == "ok" && c.Collide.Place != "tlr" && o.H == 1 && o.T == 1 && !o.Peer && !o.Creds {
+				extraSamples++
+				samples = append(samples, map[string]interface{}{"case": c, "opts": o.String(), "observed": obs})
+			}
+			if clause != "" {
+				o := o
+				cc := c
+				cc.Opts = &o
+				outcome := "failure"
+				if c.Code == 0 {
+					outcome = "success"
+				}
+				tail := fmt.Sprintf("|code=%d", c.Code)
+				if c.Wire {
+					tail += "|wire"
+				}
+				col.report(fmt.Sprintf("C14|stream-collide|%s|%s|%s", c.Collide, outcome, clause), tail+extras("", "", c.Details, o)+fmt.Sprintf("|nmsgs=%d", c.NMsgs), clause+": "+obs, cc)
+			}
+		}
+	}
+	for _, k := range streamCollides {
+		for _, code := range codeList {
+			for n := 0; n <= 1; n++ {
+				for det := 0; det <= 1; det++ {
+					if det > 0 && (code == 0 || (k.Key != "x-grpc-status" && k.Key != "x-grpc-details")) {
+						continue
+					}
+					k := k
+					streamCollideCases++
+					doStream(streamCase{Kind: "stream", Code: code, Details: det, NMsgs: n, Collide: &k}, optSets)
+				}
+			}
+		}
+	}
+	for _, k := range streamCollides {
+		for _, code := range []uint32{0, 5} {
+			k := k
+			wireCases++
+			doStream(streamCase{Kind: "stream", Code: code, NMsgs: 1, Collide: &k, Wire: true}, wireSets)
+		}
+	}
+	lap("streams colliding metadata")
 	os.Exit(rep.Finish("exploration", map[string]interface{}{
 		"evaluations":         evals,
 		"distinct_nontrivial": len(distinct),
 		"option_lists":        len(optSets),
 		"option_lists_sweeps": len(sweepSets),
 		"collapsed_failures":  col.collapsed,
-		"rule": fmt.Sprintf("total enumeration. (a) unary, server then client: (%d gRPC codes: 0..17, 99, 1000, 2^31-1, 2^31, 3e9, 2^32-1%s) x (request context live/cancelled) x (%d renderers: %s) x (handler sets no metadata / header / trailer / both) x (message \"msg\" / empty / with colons) x (0..2 status details) through the real server on a recorder [plus GRPC-Timeout expired/far x cancelled x 3 codes, and an error carrying OK x renderers], and every recorded reply through the real client once for EACH of the %d call-option lists {0,1,2 grpc.Header} x {0,1,2 grpc.Trailer} x {grpc.Peer or not} x {grpc.PerRPCCredentials or not}, body intact and cut short. (b) unary, synthetic replies: every HTTP status 100..599 x 6 X-GRPC-Status shapes (absent, \"\", \"x:y\", \":\", \"5\", \"5:a:b: c\") x reply metadata present or not x X-GRPC-Details present or not x body (encoded response / empty) x %d option lists (quick tier: every subset of the four option kinds plus the doubled Header/Trailer lists, 19; thorough: all 36) through Invoke. (c) the same statuses x shapes x metadata (x details header%s) x the same option lists through NewStream with a well-formed framed body. (d) server-streaming method end to end through the real server and client: codes x handler metadata x message x details x (0 or 1 message sent first) x option lists, plus an error carrying OK. Oracle: documented HTTP status (499 rule); the caller gets exactly the handler's code, message and details whenever X-GRPC-Status is present, under every option list; without it OK for 2xx only; grpc.Header/grpc.Trailer variables hold the handler's h-key/t-key. A case is non-trivial when it reaches the error renderer or the status-derivation path (everything except the plain OK reply of (a)/(d)); distinct by all its parameters including the option list. Failures are reported once per (old-grammar case, clause) under the simplest failing member; the rest are counted in collapsed_failures.",
-			len(codeList), map[bool]string{true: ", 18..64, 255, 256, 65535, 65536, 2^31+5, 2^32-2", false: ""}[thorough], len(renderers), strings.Join(renderers, "/"), len(optSets), len(sweepSets), map[bool]string{true: "", false: " only where a code is parseable"}[thorough]),
-		"samples":    samples,
-		"exhaustive": true,
+		"rule": fmt.Sprintf("total enumeration. (a) unary, server then client: (%d gRPC codes: 0..17, 99, 1000, 2^31-1, 2^31, 3e9, 2^32-1%s) x (request context live/cancelled) x (%d renderers: %s) x (handler sets no metadata / header / trailer / both) x (message \"msg\" / empty / with colons) x (0..2 status details) through the real server on a recorder [plus GRPC-Timeout expired/far x cancelled x 3 codes, and an error carrying OK x renderers], and every recorded reply through the real client once for EACH of the %d call-option lists {0,1,2 grpc.Header} x {0,1,2 grpc.Trailer} x {grpc.Peer or not} x {grpc.PerRPCCredentials or not}, body intact and cut short. (b) unary, synthetic replies: every HTTP status 100..599 x 6 X-GRPC-Status shapes (absent, \"\", \"x:y\", \":\", \"5\", \"5:a:b: c\") x reply metadata present or not x X-GRPC-Details present or not x body (encoded response / empty) x %d option lists (quick tier: every subset of the four option kinds plus the doubled Header/Trailer lists, 19; thorough: all 36) through Invoke. (c) the same statuses x shapes x metadata (x details header%s) x the same option lists through NewStream with a well-formed framed body. (d) server-streaming method end to end through the real server and client: codes x handler metadata x message x details x (0 or 1 message sent first) x option lists, plus an error carrying OK. (e) handler-set metadata colliding with the protocol's own response headers: %d entries = {x-grpc-status: another code+message / \"0:OK\" / unparseable / the handler's code with another message; x-grpc-details: a decodable stale detail / not base64; content-type: text/plain / application/json; content-length: 0 / 3 / 99999} x {grpc.SetHeader(key), grpc.SetTrailer(key), grpc.SetHeader(\"x-grpc-trailer-\"+key)}, each contradicting what the handler then returns, crossed with codes x live/cancelled x renderers x handler metadata (%s) x all option lists, body intact and cut short; status details 1..2 swept for the status/details entries and the message shapes for the status entries; plus an error carrying OK x entries x renderers [%d server cases]. (f) the two-hop chain end to end: a backend httpgrpc server (every code x 0..1 details, sets h-key/t-key) called through an httpgrpc channel by a gateway handler that relays the backend call's grpc.Header / grpc.Trailer metadata (header only / trailer only / both) with grpc.SetHeader / SetTrailer and then returns its own outcome (%d gateway codes x 0..1 details, %s) x renderers x all option lists of the outer caller [%d cases]. (g) the same entries and the chain (backend codes 0/5/14, both hops) over net/http on loopback for gateway codes 0/5/14 x renderers x option lists {none, header+trailer}, and the stream entries for codes 0/5 [%d cases]. (h) server-streaming method: the same %d key/value pairs x {SetHeader, SendHeader, SetTrailer} x codes x (0 or 1 message sent) x (0..1 details for status/details entries) x all option lists [%d cases]. Oracle: documented HTTP status (499 rule); the caller gets exactly the handler's code, message and details whenever X-GRPC-Status is present, under every option list; without it OK for 2xx only; grpc.Header/grpc.Trailer variables hold the handler's h-key/t-key. In (e)-(h) the oracle is the same: what the HANDLER (the gateway) returned, whatever metadata it set. A case is non-trivial when it reaches the error renderer or the status-derivation path (everything except the plain OK reply of (a)/(d); a success of (e)/(f) counts only when a status or details header is on the recorded reply; (g)/(h) by all parameters); distinct by all its parameters including the option list. Failures are reported once per (old-grammar case, clause) - in (e)-(h) once per (colliding entry or chain, handler succeeded/failed, clause) - under the simplest failing member; the rest are counted in collapsed_failures.",
+			len(codeList), map[bool]string{true: ", 18..64, 255, 256, 65535, 65536, 2^31+5, 2^32-2", false: ""}[thorough], len(renderers), strings.Join(renderers, "/"), len(optSets), len(sweepSets), map[bool]string{true: "", false: " only where a code is parseable"}[thorough],
+			len(unaryCollides), map[bool]string{true: "none / both", false: "none; none / both in the thorough tier"}[thorough], collideCases,
+			len(gatewayCodes), map[bool]string{true: "request live/cancelled", false: "request live; the 24 quick-tier codes and live/cancelled in the thorough tier"}[thorough], chainCases, wireCases, len(streamCollides)/3, streamCollideCases),
+		"colliding_entries":    len(unaryCollides),
+		"collide_cases":        collideCases,
+		"chain_cases":          chainCases,
+		"loopback_cases":       wireCases,
+		"stream_collide_cases": streamCollideCases,
+		"samples":              samples,
+		"exhaustive":           true,
 	}, []string{
-		"net/http itself is not exercised: server on httptest.ResponseRecorder, client on a canned RoundTripper (streaming end to end: the handler runs inside RoundTrip, the reply is complete when it returns)",
+		"net/http itself is exercised only in (g) (loopback, keep-alives off); everywhere else: server on httptest.ResponseRecorder, client on a canned RoundTripper (streaming end to end: the handler runs inside RoundTrip, the reply is complete when it returns)",
+		"colliding metadata keys are lower case (what metadata.Pairs and a relayed grpc.Header variable produce); one colliding entry per handler, except in the chain, which relays everything the backend reply carried",
+		"the chain's backend hop runs without a recorder in between only in (g); in (f) both hops are recorder-based",
 		"call options the channel ignores (WaitForReady, MaxCall*MsgSize, CallContentSubtype, ...) are not part of the option dimension",
 		"the JSON unary content type is not enumerated (the real client never sends it)",
 	}))
